@@ -752,6 +752,7 @@ def r38(ctx, methods):
 
 def run(ctx):
     ctx.rule("R-3.8", "busy-path membership tests compare path numbers in the same representation (int vs their str form in the in-flight record)", floor=3)
+    ctx.rule("R-3.10", "membership tests against the busy paths consult the whole result of locked_paths() (no slice / filter)", floor=2)
     ctx.rule("R-3.9", "no `for` variable of the scheduler / engine-booking code is read after its loop has ended (a stale variable selects the last element of an earlier loop)", floor=30)
     ctx.rule("R-3.1", "who may write the busy flags: __init__ and acquire/release stores only", floor=3)
     ctx.rule("R-3.2", "acquire (release) store dominated by a raising check that the flag was 0 (1)", floor=2)
@@ -766,12 +767,15 @@ def run(ctx):
     ctx.attempt(r35, ctx, rel_funcs, methods)
     ctx.attempt(r36, ctx)
     ctx.attempt(r37, ctx, methods)
-    from .shared import stale_loop_variable
+    from .shared import stale_loop_variable, whole_busy_set
+    ctx.attempt(whole_busy_set, ctx, "R-3.10", " and can be swapped out of its busy ensemble by the re-sort / credited weight while in flight")
     ctx.attempt(stale_loop_variable, ctx, "R-3.9", [REPEX, FACTORY, SCHED], None, " (the wrong ensemble / engine slot is marked or booked)")
     ctx.attempt(r38, ctx, methods)
 
 
 VARIANTS = [
+    B("c03-sort-drops-last-busy-path", REPEX, "            locks = self.locked_paths()\n            zero_idx", "            locks = self.locked_paths()[:-1]\n            zero_idx", "R-3.10", control=True, why="seeded C03_d"),
+    K("c03-keep-busy-set-as-set", REPEX, "            locks = self.locked_paths()\n            zero_idx", "            busy = self.locked_paths()\n            locks = busy\n            zero_idx"),
     B("c03-stale-engine-key", FACTORY, "    for eng_key in eng_names:\n        for i, occupied_by in enumerate(engine_occ[eng_key]):\n            if occupied_by == -1:\n                engine_occ[eng_key][i] = pin\n                out[eng_key] = i", "    for eng_name in eng_names:\n        for i, occupied_by in enumerate(engine_occ[eng_name]):\n            if occupied_by == -1:\n                engine_occ[eng_key][i] = pin\n                out[eng_name] = i", "R-3.9", control=True, why="seeded C03_c (also R-3.6)"),
     B("c03-stray-unlock-store", REPEX, "        self.sort_trajstate()\n        self.config[\"current\"][\"traj_num\"] = traj_num", "        self._locks[0] = 0\n        self.sort_trajstate()\n        self.config[\"current\"][\"traj_num\"] = traj_num", "R-3.2"),
     B("c03-locks-bulk-reset", REPEX, "        self._last_prob = None\n        self.prob\n\n    def lock(self, ens):", "        self._locks[:] = 0\n        self._last_prob = None\n        self.prob\n\n    def lock(self, ens):", "R-3.1", control=True),
